@@ -247,7 +247,7 @@ impl Scenario for C14 {
 fn main() {
     main_for(|tier| {
         let thorough = tier == "thorough";
-        let mut o = Opts::new(tier, if thorough { 6 } else { 4 });
+        let mut o = Opts::new(tier, if thorough { 10 } else { 4 });
         o.min_depth = 3;
         o.rule = "all sequences over pay_gas / add_gas (2 tokens: stellar asset contract and native interchain token; spenders U1, U2; amounts -1, 0, 1, balance, balance+1; authorised by the spender or by someone else) and collect_fees / refund (amounts -1, 0, 1, held, held+1; by collector, owner, stranger); after every new state all balances of both tokens and the equation held == paid + added - collected - refunded are compared with the model".into();
         (C14 { thorough }, o)
